@@ -446,6 +446,9 @@ func runC16(p *P, r *R) {
 	}
 	c16SessionNames(p, r)
 	c16FreshBookkeeping(p, r)
+	// R16.12 a restart event or acknowledgement that arrives in two segments is neither dropped nor half-consumed
+	// (shared with C13 R13.5)
+	borrow(p, r, "C13", runC13, map[string]string{"R13.5": "R16.12"}, func(o Ob) bool { return constructHas(o, "handleHotRestart") })
 	// R16.10 a session dying while the restart events are sent must not wedge the listener: no mutex is re-acquired
 	// through the shutdown callback while the restart loop holds it, no unbounded wait under a mutex (shared with C11)
 	borrow(p, r, "C11", runC11, map[string]string{"R11.11": "R16.10", "R11.12": "R16.10", "R11.13": "R16.10"}, nil)
